@@ -1,0 +1,6 @@
+//go:build verif
+
+package jd
+
+// Contracts for the v1 library (package jd in lib/), read by the verifier in /verif (jdvc).
+// This file contains only comments.
